@@ -323,6 +323,20 @@ pub fn representatives() -> Vec<Inst> {
         ("0beef", Class::Ident, "ident:digit-leading"),
         ("0xg", Class::Ident, "ident:digit-leading"),
         ("7x_", Class::Ident, "ident:digit-leading"),
+        // digits in front of a keyword spelling are one identifier, not a keyword
+        ("4def", Class::Ident, "ident:digit-leading"),
+        ("1if", Class::Ident, "ident:digit-leading"),
+        ("2in", Class::Ident, "ident:digit-leading"),
+        ("64int", Class::Ident, "ident:digit-leading"),
+        ("8bit", Class::Ident, "ident:digit-leading"),
+        ("7true", Class::Ident, "ident:digit-leading"),
+        ("3class", Class::Ident, "ident:digit-leading"),
+        ("9_let", Class::Ident, "ident:digit-leading"),
+        // ... and so are keyword spellings with a tail
+        ("define", Class::Ident, "ident"),
+        ("classy", Class::Ident, "ident"),
+        ("int_", Class::Ident, "ident"),
+        ("if0", Class::Ident, "ident"),
         ("classy", Class::Ident, "ident:keyword-prefix"),
         ("int1", Class::Ident, "ident:keyword-prefix"),
         ("0", Class::Int, "int:decimal"),
